@@ -100,16 +100,93 @@ class _LogMonitor(logging.Handler):
         self.records.append(record.getMessage()[:300])
 
 
-def _queue_monitor(ctx, classes, fixed=None):
+def _public_form(cls):
+    """The value_type / {"main", "sub"} form with which the public GroupAddressDPT.set() resolves to `cls`."""
+    from xknx.core.group_address_dpt import GroupAddressDPT
+
+    probe = GroupAddressDPT()
+    ga = GroupAddress(1)
+    forms = [cls.value_type] if cls.value_type else []
+    forms.append({"main": cls.dpt_main_number, "sub": cls.dpt_sub_number})
+    for form in forms:
+        probe.clear()
+        probe.set({ga: form})
+        if probe.get(ga) is cls:
+            return form
+    return None
+
+
+def _lifecycle_ops(ctx, table, forms, rng):
+    """Table life-cycle operations (all through the public API), as JSON-able descriptions.
+
+    ("clear",) | ("set", {address text: dpt form}) - full reload, the same mapping again, an overlapping
+    re-mapping of a few addresses to other classes, a partially invalid mapping (unparsable addresses,
+    unknown DPTs) and clear() alone.
+    """
+    full = {str(ga.raw): forms[cls] for ga, cls in table if forms[cls] is not None}
+    some = [ga for ga, cls in table if forms[cls] is not None]
+    usable = [f for f in forms.values() if f is not None]
+
+    def overlap():
+        return {str(ga.raw): rng.choice(usable) for ga in rng.sample(some, min(6, len(some)))}
+
+    def partly_invalid():
+        mapping = {"x/y/z": "temperature", "99/99/99": "switch", "-1": "percent", "": 9}
+        for ga in rng.sample(some, min(4, len(some))):
+            mapping[str(ga.raw)] = rng.choice(("no_such_value_type", {"main": 999}, {"sub": 1}, {"main": "x"}, 424242, "9.999"))
+        for ga in rng.sample(some, min(3, len(some))):
+            mapping[str(ga.raw)] = rng.choice(usable)
+        return mapping
+
+    cycle = [
+        [("set", full)],                       # the same mapping again
+        [("set", overlap())],                  # overlapping re-mapping
+        [("set", partly_invalid())],           # partially invalid mapping
+        [("clear",), ("set", full)],           # reload
+        [("set", overlap()), ("set", full)],
+        [("clear",)],                          # table empty for a while ...
+        [("set", full)],                       # ... and configured again
+        [("clear",), ("set", partly_invalid()), ("set", full), ("set", full)],
+    ]
+    return cycle
+
+
+def _apply_op(xknx, op):
+    if op[0] == "clear":
+        xknx.group_address_dpt.clear()
+    else:
+        mapping = {}
+        for addr, form in op[1].items():
+            mapping[int(addr) if addr.isdigit() else addr] = form
+        xknx.group_address_dpt.set(mapping)
+
+
+def _where(exc):
+    """module.function of the innermost xknx frame of an exception (mechanism strings)."""
+    tb = exc.__traceback__
+    last = None
+    while tb is not None:
+        code = tb.tb_frame.f_code
+        if "xknx" in code.co_filename:
+            last = (code.co_filename.rsplit("/", 1)[-1].removesuffix(".py"), code.co_name)
+        tb = tb.tb_next
+    return ".".join(last) if last else "unknown"
+
+
+def _queue_monitor(ctx, classes, fixed=None, script=None):
     """Monitor 2: real XKNX + TelegramQueue on the virtual loop.
 
+    The event stream mixes hostile incoming telegrams with table life-cycle operations
+    (group_address_dpt.clear() / set() through the public API): before an operation the harness
+    waits for telegrams.join(), so every telegram is decoded under a known table state.
     `fixed` (replay): the payload list to send to every class instead of _queue_payloads().
+    `script` (replay): life-cycle operations to apply before the first telegram.
     """
     rng = ctx.rng
-    # configuration through the public API; verified with get()
     table = []
     for i, cls in enumerate(classes):
         table.append((GroupAddress(i + 1), cls))
+    forms = {cls: _public_form(cls) for _ga, cls in table}
     telegrams = []
     for ga, cls in table:
         for k, payload in enumerate(fixed if fixed is not None else _queue_payloads(ctx, cls, rng)):
@@ -120,10 +197,19 @@ def _queue_monitor(ctx, classes, fixed=None):
                 # such a payload cannot reach the queue - monitor 1 still decodes it directly
                 ctx.count("queue_payload_refused_by_apci_constructor")
                 continue
-            telegrams.append((cls, Telegram(destination_address=ga, direction=TelegramDirection.INCOMING, payload=apci, source_address=_SRC)))
-    order = list(range(len(telegrams)))
-    rng.shuffle(order)
-    pending = [telegrams[i] for i in order]
+            telegrams.append(("t", cls, Telegram(destination_address=ga, direction=TelegramDirection.INCOMING, payload=apci, source_address=_SRC)))
+    rng.shuffle(telegrams)
+    if script is not None:
+        pending = [("op", tuple(op)) for op in script] + telegrams
+    else:
+        # life-cycle operations spread over the stream (several rounds of the cycle)
+        groups = _lifecycle_ops(ctx, table, forms, rng) * ctx.scale(2, 6)
+        pending = []
+        chunk = max(1, len(telegrams) // (len(groups) + 1))
+        for gi, group in enumerate(groups):
+            pending += telegrams[gi * chunk : (gi + 1) * chunk]
+            pending += [("op", op) for op in group]
+        pending += telegrams[len(groups) * chunk :]
 
     log = logging.getLogger("xknx.log")
     saved = (log.level, log.propagate)
@@ -133,30 +219,32 @@ def _queue_monitor(ctx, classes, fixed=None):
     log.propagate = False
     restarts = 0
     try:
-        while pending and restarts < 25:
+        while any(ev[0] == "t" for ev in pending) and restarts < 25:
             processed = []
-            state = {}
+            state = {"history": []}
 
             async def session(batch=pending, processed=processed, state=state):
                 xknx = XKNX()
+                state["xknx"] = xknx
                 unreachable = 0
                 for ga, cls in table:
-                    forms = [cls.value_type] if cls.value_type else []
-                    forms.append({"main": cls.dpt_main_number, "sub": cls.dpt_sub_number})
-                    for form in forms:
-                        xknx.group_address_dpt.set({ga: form})
-                        if xknx.group_address_dpt.get(ga) is cls:
-                            break
-                    else:
+                    if forms[cls] is None:
                         unreachable += 1
+                    else:
+                        xknx.group_address_dpt.set({ga: forms[cls]})
                     xknx.devices.async_add(Sensor(xknx, f"s{ga.raw}", group_address_state=ga, value_type=cls, sync_state=False))
                 state["unreachable"] = unreachable
                 xknx.telegram_queue.register_telegram_received_cb(processed.append)
                 await xknx.telegram_queue.start()
                 state["consumer"] = xknx.telegram_queue._consumer_task
-                for _cls, telegram in batch:
-                    telegram.decoded_data = None
-                    xknx.telegrams.put_nowait(telegram)
+                for ev in batch:
+                    if ev[0] == "t":
+                        ev[2].decoded_data = None
+                        xknx.telegrams.put_nowait(ev[2])
+                    else:
+                        await xknx.telegrams.join()  # everything so far is decoded under the old table
+                        _apply_op(xknx, ev[1])
+                        state["history"].append(ev[1])
                 await xknx.telegrams.join()
                 state["joined"] = True
                 await asyncio.sleep(0)
@@ -174,13 +262,18 @@ def _queue_monitor(ctx, classes, fixed=None):
                 ctx.inconclusive("queue monitor exceeded its virtual-time/iteration budget")
                 loop.finish()
                 return
+            except BaseException as exc:  # noqa: BLE001 - a life-cycle call itself raised
+                failure = f"table life-cycle call raised {type(exc).__name__}: {exc}"[:300]
+                state["op_exception"] = exc
             leaked = loop.finish()
             if state.get("unreachable"):
                 ctx.count("queue_classes_not_configurable_via_public_set", state["unreachable"])
             ctx.count("queue_sessions")
             ctx.count("queue_telegrams_processed", len(processed))
             ctx.count("queue_telegrams_decoded", sum(1 for t in processed if t.decoded_data is not None))
-            ctx.ev(len(processed))
+            for op in state["history"]:
+                ctx.count("queue_table_clear" if op[0] == "clear" else "queue_table_set")
+            ctx.ev(len(processed) + len(state["history"]))
             for t in processed[:: max(1, len(processed) // 50)]:
                 ctx.distinct(("queue", type(t.payload.value).__name__, t.decoded_data is not None))
             consumer = state.get("consumer")
@@ -195,24 +288,55 @@ def _queue_monitor(ctx, classes, fixed=None):
                     ctx.count("queue_clean_stops")
                 pending = []
                 break
+            history = [list(op) for op in state["history"]]
+            reconf = "-after-table-reconfiguration" if history else ""
+            if "op_exception" in state:
+                exc = state["op_exception"]
+                ctx.violation(
+                    f"group-address-table-life-cycle-call-raises-{type(exc).__name__}-in-{_where(exc)}",
+                    {"config_history": history[-12:], "exception": repr(exc)[:200]},
+                    failure,
+                )
+                # drop everything up to and including the operation that raised
+                n_ops = len(history)
+                seen = 0
+                cut = len(pending)
+                for pos, ev in enumerate(pending):
+                    if ev[0] == "op":
+                        if seen == n_ops:
+                            cut = pos + 1
+                            break
+                        seen += 1
+                pending = pending[cut:]
+                restarts += 1
+                continue
             # the first unprocessed telegram killed the consumer
-            idx = len(processed)
+            tele_positions = [pos for pos, ev in enumerate(pending) if ev[0] == "t"]
             exc = None
             if consumer is not None and consumer.done() and not consumer.cancelled():
                 exc = consumer.exception()
-            if idx < len(pending):
-                cls, telegram = pending[idx]
+            if len(processed) < len(tele_positions):
+                pos = tele_positions[len(processed)]
+                _t, cls, telegram = pending[pos]
                 payload = telegram.payload.value
+                now = state["xknx"].group_address_dpt.get(telegram.destination_address)
+                if isinstance(exc, G.DECLARED_ERRORS):
+                    mech = f"telegram-consumer-killed-by-declared-decode-error-{type(exc).__name__}"
+                elif exc is not None and _where(exc).startswith("dpt"):
+                    mech = f"telegram-consumer-killed-by-{type(exc).__name__}-from-{G.owner(now or cls, 'from_knx')}-decode"
+                else:
+                    mech = f"telegram-consumer-killed-by-{type(exc).__name__ if exc else 'unknown'}-in-{_where(exc) if exc else 'unknown'}{reconf}"
                 ctx.violation(
-                    (f"telegram-consumer-killed-by-declared-decode-error-{type(exc).__name__}" if isinstance(exc, G.DECLARED_ERRORS)
-                     else f"telegram-consumer-killed-by-{type(exc).__name__ if exc else 'unknown'}-from-{G.owner(cls, 'from_knx')}-decode"),
-                    {"cls": cls.__name__, "payload": G.describe(payload), "apci": type(telegram.payload).__name__,
-                     "exception": repr(exc)[:200], "failure": failure},
-                    f"incoming telegram for a group address configured as {cls.__name__} with payload {payload!r}: {failure}; consumer exception {exc!r}"[:400],
+                    mech,
+                    {"cls": cls.__name__, "configured_now": now.__name__ if now else None, "payload": G.describe(payload),
+                     "apci": type(telegram.payload).__name__, "exception": repr(exc)[:200], "failure": failure,
+                     "config_history": history[-12:]},
+                    f"incoming telegram for a group address configured as {now.__name__ if now else None} with payload {payload!r} after "
+                    f"{len(history)} table operations (last: {[op[0] for op in history[-3:]]}): {failure}; consumer exception {exc!r}"[:500],
                 )
-                pending = pending[idx + 1 :]
+                pending = pending[pos + 1 :]
             else:
-                ctx.violation("telegram-consumer-stalled-without-pending-telegram", {"failure": failure}, failure)
+                ctx.violation("telegram-consumer-stalled-without-pending-telegram", {"failure": failure, "config_history": history[-12:]}, failure)
                 pending = []
             restarts += 1
     finally:
@@ -270,7 +394,7 @@ def run(ctx):
         "lengths, per-position sweeps and random arrays of the own length); distinct = (class, payload kind, length, outcome class); "
         "queue monitor: one GA per class via group_address_dpt.set(), shuffled incoming GroupValueWrite/Response telegrams, join() per session"
     )
-    ctx.require("decoded_value", "rejected_CouldNotParseTelegram", "rejected_ConversionError", "interleaved_decodes", "queue_telegrams_processed", "queue_telegrams_decoded", "queue_clean_stops")
+    ctx.require("decoded_value", "rejected_CouldNotParseTelegram", "rejected_ConversionError", "interleaved_decodes", "queue_telegrams_processed", "queue_telegrams_decoded", "queue_clean_stops", "queue_table_clear", "queue_table_set")
     classes = G.concrete_dpt_classes()
     ctx.extra["dpt_classes"] = len(classes)
     if len(classes) < 200:
@@ -310,4 +434,13 @@ def replay(ctx, witness):
     ctx.distinct(("replay", repr(payload)))
     ctx.count("decoded_value")
 
-    _queue_monitor(ctx, [cls], fixed=[payload])
+    # same clear()/set() sequence as recorded, re-targeted at the single address of the replay table
+    now = witness.get("configured_now")
+    target = G.class_by_name(now) if now else cls
+    form = _public_form(target)
+    script = None
+    if witness.get("config_history") is not None:
+        script = [("clear",) if op[0] == "clear" else ("set", {"1": form}) for op in witness["config_history"]]
+        if now and (not script or script[-1][0] == "clear"):
+            script.append(("set", {"1": form}))
+    _queue_monitor(ctx, [target], fixed=[payload], script=script)
